@@ -57,4 +57,4 @@ def cycle(theta):
 
 @builtin
 def random(min, max):
-    return py_random.randrange(min, max)
+    return py_random.randrange(min, max + 1)
